@@ -296,3 +296,10 @@ func SortInts(x []int)                                        { sort.Ints(x) }
 func SortFloat64s(x []float64)                                { sort.Float64s(x) }
 func SortSlice(x interface{}, less func(i, j int) bool)       { sort.Slice(x, less) }
 func SortSliceStable(x interface{}, less func(i, j int) bool) { sort.SliceStable(x, less) }
+
+func MakeNamed[C ~chan E, E any](n ...int) C {
+	if len(n) > 0 {
+		return make(C, n[0])
+	}
+	return make(C)
+}
